@@ -619,6 +619,8 @@ def _bounded_lines(ctx):
 SCOPE_KINDS = ("io.indent", "io.increment_indent", "output.indent", "output.increment_indent")
 PROBE_TEXT = "<info>ab</info>\n\n  cd"  # a tagged line, an empty line, a line that starts with blanks of its own
 PROBE_PLAIN_LINES = ("ab", "", "  cd")
+# lines are separated by "\n" only: a trailing newline is a trailing empty line, other "line break" characters are text
+EXTRA_PROBES = ("ab\n", "a\rb\n\n", "x\x0cy\u2028z\x0b")
 
 
 class _Boom(Exception):
@@ -672,6 +674,20 @@ def indent_case(mode, scopes):
                 fails.append(("indent_scopes|%s|%s|%s" % (which, _indent_class(got, want), phase),
                               "%s via %s: wrote %r, indentation in force %d, expected %r (scopes %r)"
                               % (where, label, got, model[which], want, scopes)))
+        for text in EXTRA_PROBES:
+            for label, fn, which, nl in (("IO.write_line", io.write_line, "out", True), ("IO.error", io.error, "err", False)):
+                io.clear_output()
+                io.clear_error()
+                r = _real(fn, text)
+                if isinstance(r, _Raised):
+                    fails.append(("indent_scopes|%s|raises" % label, "%s: %r" % (where, r)))
+                    continue
+                got = shown(io.fetch_output() if which == "out" else io.fetch_error())
+                want = indented(text.split("\n"), model[which]) + ("\n" if nl else "")
+                if got != want:
+                    fails.append(("indent_scopes|%s|line-breaks|%s" % (which, phase),
+                                  "%s via %s: text %r wrote %r, indentation in force %d, expected %r (scopes %r)"
+                                  % (where, label, text, got, model[which], want, scopes)))
         # a section created now starts with the indentation of its output
         io.clear_output()
         sec = _real(io.output.section)
@@ -738,7 +754,8 @@ def _bounded_indent(ctx):
               "{normal, exception}; all nestings of depth 1..%d with widths %r exhaustively (%d scopes per level), plus %d seeded "
               "nestings of depth 2..4 with widths %r; each x {ANSI forced, plain}; at every level before / inside / after the "
               "inner scope / after exit: IO.write_line, IO.write, Output.write_line, IO.error_line, IO.error and a freshly "
-              "created section write a 3-line text (tagged line, empty line, line with own leading blanks) and every line is "
+              "created section write a 3-line text (tagged line, empty line, line with own leading blanks), IO.write_line and "
+              "IO.error also 3 texts with a trailing newline / \\r, \\x0b, \\x0c, \\u2028 inside, and every line is "
               "compared with the model indentation of its stream"
               % (max_exh, exh_widths, len(exh_level), n_sample, smp_widths))
     rec = _Recorder(ctx)
